@@ -59,6 +59,9 @@ pub struct Ghost {
     pub tx_late_fds: bool,        // descriptors attached to any later call
     pub tx_call_at_rx_pos: usize, // rx_pos at the time of the first send
     pub tx_accept: usize,         // per-call accept limit (C08 sender side)
+    pub tx_err_at_call: usize,    // 1-based index of the send call that fails once with tx_errno (0 = never)
+    pub tx_errno: i32,
+    pub tx_attempts: usize,
     pub fd_state: [u8; FD_N],
     pub fd_owned: [bool; FD_N], // handed to the application handler by value
     pub double_close: bool,
@@ -91,6 +94,9 @@ pub static mut G: Ghost = Ghost {
     tx_late_fds: false,
     tx_call_at_rx_pos: usize::MAX,
     tx_accept: usize::MAX,
+    tx_err_at_call: 0,
+    tx_errno: 0,
+    tx_attempts: 0,
     fd_state: [0; FD_N],
     fd_owned: [false; FD_N],
     double_close: false,
@@ -300,6 +306,12 @@ pub unsafe fn ghost_recvmsg(_fd: RawFd, iovecs: &mut [iovec], in_fds: &mut [RawF
 /// stub for vmm_sys_util::sock_ctrl_msg::raw_sendmsg (all bytes accepted unless G.tx_accept limits a call)
 pub fn ghost_sendmsg<D: IntoIovec>(_fd: RawFd, out_data: &[D], out_fds: &[RawFd]) -> errno::Result<usize> {
     unsafe {
+        G.tx_attempts += 1;
+        if G.tx_err_at_call == G.tx_attempts {
+            // one injected transient failure (EAGAIN / EINTR / ENOBUFS chosen by the harness): nothing is
+            // accepted, neither bytes nor descriptors
+            return Err(errno::Error::new(G.tx_errno));
+        }
         if G.tx_calls == 0 {
             G.tx_first_nfds = out_fds.len();
             if out_fds.len() > 0 {
@@ -316,7 +328,14 @@ pub fn ghost_sendmsg<D: IntoIovec>(_fd: RawFd, out_data: &[D], out_fds: &[RawFd]
         let mut total = 0usize;
         let mut i = 0;
         while i < out_data.len() {
-            let n = out_data[i].size();
+            let mut n = out_data[i].size();
+            if G.tx_accept != usize::MAX {
+                // a non-blocking socket with a small send buffer accepts only a prefix
+                let room = G.tx_accept - total;
+                if n > room {
+                    n = room;
+                }
+            }
             copy_in(out_data[i].as_ptr() as *const u8, G.tx_len + total, n);
             total += n;
             i += 1;
@@ -351,6 +370,12 @@ pub fn ghost_ownedfd_drop(fd: &mut std::os::fd::OwnedFd) {
     unsafe {
         ghost_close(fd.as_raw_fd());
     }
+}
+
+/// stub for std::thread::panicking (consulted by every MutexGuard drop for lock poisoning): harnesses are
+/// single-threaded and a panic is a reported failure, so "not panicking" is exact
+pub fn ghost_not_panicking() -> bool {
+    false
 }
 
 /// stub for std::alloc::handle_alloc_error: allocation failure is outside every claim
